@@ -178,6 +178,10 @@ func genDescRow(r *vh.Rng, fn string, fi *fmtInfo, valid bool, rowIdx int) *Desc
 	case "Sop2":
 		d.Dst, d.S0 = dst(), src(true, true)
 		d.S1 = src(true, d.S0.K != "lit" || !valid)
+		if valid && r.Intn(6) == 0 { // both sources refer to the one literal dword
+			v := int64(uint32(r.U64()) | 1)
+			d.S0, d.S1 = &Opnd{K: "lit", V: v}, &Opnd{K: "lit", V: v}
+		}
 	case "Sopk":
 		d.Dst = dst()
 		d.N["simm"] = edge(r, 16)
@@ -186,6 +190,10 @@ func genDescRow(r *vh.Rng, fn string, fi *fmtInfo, valid bool, rowIdx int) *Desc
 	case "Sopc":
 		d.S0 = src(true, true)
 		d.S1 = src(true, d.S0.K != "lit" || !valid)
+		if valid && r.Intn(6) == 0 {
+			v := int64(uint32(r.U64()) | 1)
+			d.S0, d.S1 = &Opnd{K: "lit", V: v}, &Opnd{K: "lit", V: v}
+		}
 	case "Sopp":
 		d.N["simm"] = edge(r, 16)
 	case "Smem":
@@ -304,7 +312,7 @@ func opndMatches(want *Opnd, got *insts.Operand, lit *uint32) string {
 		}
 	case "lit":
 		if got.OperandType != insts.LiteralConstant || (lit != nil && got.LiteralConstant != uint32(want.V)) {
-			return fmt.Sprintf("expected literal %#x", want.V)
+			return fmt.Sprintf("expected literal %#x, decoded literal value %#x", want.V, got.LiteralConstant)
 		}
 	}
 	return ""
@@ -388,8 +396,11 @@ func roundTrip(d *Desc, fi *fmtInfo, i *insts.Inst) string {
 			if i.Offset == nil || i.Offset.OperandType != insts.IntOperand || i.Offset.IntValue != n("offset") {
 				add("offset differs")
 			}
-		} else if i.Offset == nil || i.Offset.Register == nil || i.Offset.Register.RegType != insts.S0+insts.RegType(n("offset")) {
+		} else if i.Offset == nil || i.Offset.OperandType != insts.RegOperand || i.Offset.Register == nil ||
+			i.Offset.Register.RegType != insts.S0+insts.RegType(n("offset")) {
 			add("offset register differs")
+		} else if i.Offset.RegCount != 1 {
+			add(fmt.Sprintf("offset register s%d: register count %d, expected 1", n("offset"), i.Offset.RegCount))
 		}
 	case "Vop1":
 		add(chk("src0", d.S0, i.Src0))
@@ -554,6 +565,44 @@ func roundTrip(d *Desc, fi *fmtInfo, i *insts.Inst) string {
 		cnt("vdst", i.Dst, dsw(i.DSTWidth))
 	case "Smem":
 		cnt("base", i.Base, 2)
+		// s_load_dword[xN] / s_buffer_load_dword[xN] / s_store_dword[xN] / s_buffer_store_dword[xN]
+		c := 0
+		switch d.Op {
+		case 0:
+			c = 1
+		case 1, 9, 17, 25:
+			c = 2
+		case 2, 10, 18, 26:
+			c = 4
+		case 3, 11, 19, 27:
+			c = 8
+		case 4, 12, 20, 28:
+			c = 16
+		}
+		cnt("data", i.Data, c)
+	case "Flat":
+		// dwordx2 and the 64-bit atomics: pairs; dwordx3: 3; dwordx4: 4; everything else (byte, short,
+		// dword, 32-bit atomics) a single register, which the decoder represents as count 0
+		c := 0
+		switch {
+		case d.Op == 21 || d.Op == 29 || d.Op >= 80 && d.Op <= 93:
+			c = 2
+		case d.Op == 22 || d.Op == 30:
+			c = 3
+		case d.Op == 23 || d.Op == 31:
+			c = 4
+		}
+		cnt("data", i.Data, c)
+		cnt("vdst", i.Dst, c)
+	case "Sopc":
+		cnt("src0", i.Src0, 0)
+		cnt("src1", i.Src1, 0)
+	case "Sopk":
+		cnt("dst", i.Dst, 0)
+	case "Vop2", "Vop2Sdwa":
+		cnt("src0", i.Src0, 0)
+		cnt("vsrc1", i.Src1, 0)
+		cnt("vdst", i.Dst, 0)
 	}
 	return strings.Join(msgs, "; ")
 }
@@ -958,6 +1007,14 @@ func main() {
 					buf = append(buf, byte(r.U64()), byte(r.U64()))
 				}
 				cases = append(cases, e.wordCase("encrow", r.Bool(), buf, d, true, fis, r))
+				if fn == "Smem" { // the other offset form (immediate / SGPR) of the same row
+					d2 := genDescRow(r, fn, fis[fn], true, ri)
+					d2.B["imm"] = !d.B["imm"]
+					if !d2.B["imm"] {
+						d2.N["offset"] = int64(r.Intn(102))
+					}
+					cases = append(cases, e.wordCase("encrow", r.Bool(), d2.bytes(), d2, true, fis, r))
+				}
 			}
 		}
 		if !*noKernels {
